@@ -451,6 +451,70 @@ func (c *Ctx) c14Siblings() {
 			}
 		})
 		key := fname(f)
+		// one helper level: a method of the package that consults Retry-After for the siblings. It stands for the call if it
+		// hands on both what findRetryAfter answered — the hint and whether there was one.
+		var inner *ssa.Call
+		helperGates := false
+		if call == nil {
+			var outer *ssa.Call
+			var helper *ssa.Function
+			allInstrs(f, func(in ssa.Instruction) {
+				cl, ok := in.(*ssa.Call)
+				if !ok {
+					return
+				}
+				h := staticCallee(&cl.Call)
+				if h == nil || h == find || h.Blocks == nil || !inPkg("http")(h) {
+					return
+				}
+				allInstrs(h, func(j ssa.Instruction) {
+					if ic, ok := j.(*ssa.Call); ok && staticCallee(&ic.Call) == find {
+						outer, helper, inner = cl, h, ic
+					}
+				})
+			})
+			if helper != nil {
+				forwards := helper.Signature.Results().Len() == 2
+				sawFound := false
+				allInstrs(helper, func(j ssa.Instruction) {
+					r, ok := j.(*ssa.Return)
+					if !ok || len(r.Results) != 2 {
+						return
+					}
+					for idx, res := range r.Results {
+						for _, l := range sources(res, deriveOpts{}) {
+							if ex, ok := l.(*ssa.Extract); ok && ex.Tuple == ssa.Value(inner) && ex.Index == idx {
+								if idx == 1 {
+									sawFound = true
+								}
+								continue
+							}
+							if k, ok := l.(*ssa.Const); ok && (k.Value == nil || k.Value.String() == "0" || k.Value.String() == "false") {
+								continue
+							}
+							forwards = false
+						}
+					}
+				})
+				if !forwards || !sawFound {
+					c.violate("O3", key, c.ipos(outer), "Retry-After is consulted through "+fname(helper)+", which does not hand on whether a hint was found: Apply can only go by the value, and a hint of zero seconds (Retry-After: 0, or a date that has passed) is not told from 'no hint' — the computed wait is used although the server said to retry now")
+					continue
+				}
+				// the response parameter travels through the helper
+				p := -1
+				for i, hp := range helper.Params {
+					if len(inner.Call.Args) > 0 && resolveValue(inner.Call.Args[0]) == ssa.Value(hp) {
+						p = i
+					}
+				}
+				if p < 0 || p >= len(outer.Call.Args) || paramIndex(f, outer.Call.Args[p]) != 4 {
+					c.violate("O3", key, c.ipos(outer), "findRetryAfter is not given the response parameter (through "+fname(helper)+")")
+					continue
+				}
+				helperGates = onBoolSide(inner, true, isConsider)
+				call = outer
+			}
+		}
 		if call == nil {
 			c.violate("O3", key, c.pos(f.Pos()), "Apply no longer consults Retry-After (findRetryAfter): the server's hint is ignored even when enabled")
 			continue
@@ -467,6 +531,9 @@ func (c *Ctx) c14Siblings() {
 					}
 				}
 			}
+			if test == nil && helperGates {
+				test = call.Block() // the helper looks at the option: every return follows the call
+			}
 			early := ""
 			allInstrs(f, func(in ssa.Instruction) {
 				if r, ok := in.(*ssa.Return); ok && (test == nil || !test.Dominates(r.Block())) {
@@ -477,10 +544,10 @@ func (c *Ctx) c14Siblings() {
 				"a wait is returned at "+early+" before the policy looked at whether a Retry-After value is to be honoured: for the inputs that take that exit (attempt numbers whose linear bound is not representable) the server's hint — 7 seconds, or a date in the past — is ignored and the cap of 292 years is returned instead")
 		}
 		good, why := true, ""
-		if !onBoolSide(call, true, isConsider) {
+		if !onBoolSide(call, true, isConsider) && !helperGates {
 			good, why = false, "Retry-After is consulted although ConsiderRetryAfter is not set"
 		}
-		if paramIndex(f, call.Call.Args[0]) != 4 {
+		if inner == nil && paramIndex(f, call.Call.Args[0]) != 4 {
 			good, why = false, "findRetryAfter is not given the response parameter"
 		}
 		// return of the hint on the found side; no other return on that side
